@@ -217,7 +217,11 @@ struct Instance {
           if (pp.kind == MULTI) {
             int ncomp = 0;
             for (char ch : pp.name) if (ch == '/') ncomp++;
-            p.cb = cb_t([this, id, child, ncomp](const char *m, rtosc::RtData &d) {
+            refmatch::Pattern mpat = refmatch::parse(pp.name);
+            p.cb = cb_t([this, id, child, ncomp, mpat](const char *m, rtosc::RtData &d) {
+              // like an application callback, it can only tell which element is meant from its complete own name
+              // ("row0/col1/cell/..."): anything else is not answered
+              if (!refmatch::path_matches(mpat, std::string(m))) { d.obj = nullptr; return; }
               d.obj = child_obj(id, d.obj, RECUR, 0);
               for (int k = 0; k < ncomp; k++) { while (*m && *m != '/') ++m; if (*m) ++m; }
               proxy(child).dispatch(m, d);
